@@ -2,31 +2,225 @@
 """C11: regenerates from rs/anda_db_tfs/src/bm25.rs the data-like parts of the BM25 model:
 
 * `MAX_NOT_COMPLEMENT_DOCS`, `BM25Params::MAX_K1`, the default `(k1, b)` and the clamp bounds of
-  `BM25Params::sanitized` (as thousandths);
-* the four arms of `compare_scored_docs` (`match (a.1.is_nan(), b.1.is_nan())`), each classified as
-  ids / greater / less / score-descending-then-ids / score-ascending-then-ids;
-* the shape of `top_k_results` (select_nth at `top_k - 1`, truncate to `top_k`, final sort, all with
+  `BM25Params::sanitized` (as thousandths), incl. which branch is taken for a finite value;
+* the decision table of `compare_scored_docs` over (first score NaN?, second score NaN?), each result
+  classified as ids / greater / less / score-descending-then-ids / score-ascending-then-ids;
+* the shape of `top_k_results` (select_nth at `k - 1`, truncate to `k`, final sort, all with
   `compare_scored_docs`);
 * the order of effects inside `flush_with`: bucket object writes, the metadata commit, and the
   in-memory publication (last_saved_version, manifest, mark_bucket_saved); the generation expression;
   the ascending bucket order of the writes;
-* `load_buckets`: the legacy switch (`manifest.is_empty()`).
+* `load_buckets`: the legacy switch (manifest empty -> probe `0..=max_bucket_id` at generation 0).
 
+Keys on what is called (method / field / constant names), on nesting and on first-occurrence order —
+never on the names of locals, parameters or closure variables, on comments, or on whether a block
+lives in a private helper (helpers defined in the same file are inlined) or how a decision is spelled
+(`match` on a tuple in any arm order, `if`/`else if` chains, nested ifs, aliases bound by `let`).
 Strict about meaning: a marker that is missing, duplicated or unclassifiable is an error."""
 import re, sys
 from fractions import Fraction
 from common import *
 
 repo, gen = sys.argv[1], sys.argv[2]
-src = strip_rust_comments(read_source(repo, "rs/anda_db_tfs/src/bm25.rs"))
-# the unit tests of the file are not part of the mechanism
-mt = re.search(r"#\[cfg\(test\)\]\s*mod\s+tests\b", src)
-if mt:
-    src = src[:mt.start()]
+src = cut_tests(strip_rust_comments(read_source(repo, "rs/anda_db_tfs/src/bm25.rs")))
+ME = "c11_bm25_order"
 
 
 def squash(s):
     return re.sub(r"\s+", "", s)
+
+
+# calls that the scans below use as markers themselves: never inlined
+KEEP = {"update_metadata", "mark_bucket_saved", "avg_doc_tokens", "compare_scored_docs", "sanitized",
+        "serialize_bucket", "collect_dirty_buckets", "metadata", "has_dirty_buckets", "has_pending_metadata_flush",
+        "default", "new", "len", "is_empty"}
+
+
+def inlined(name, max_depth=5, _stack=()):
+    """like common.inlined_body (private helpers of the same file are textually inlined, recursively),
+    except that the calls in KEEP stay calls"""
+    body = try_fn_body(src, name)
+    if body is None:
+        die(f"{ME}: fn {name} not found")
+    if len(_stack) >= max_depth:
+        return body
+    names = set(all_fn_names(src)) - {name} - set(_stack) - KEEP
+    out, i = [], 0
+    pat = re.compile(r"(?:\bself\s*\.\s*|\bSelf::\s*|\bBucket::\s*|(?<![\w.:]))([A-Za-z_][A-Za-z0-9_]*)\s*(?:::<[^>()]*>)?\(")
+    while True:
+        m = pat.search(body, i)
+        if not m:
+            out.append(body[i:]); break
+        callee = m.group(1)
+        if callee not in names or body[max(0, m.start() - 3):m.start()].strip().endswith("fn"):
+            out.append(body[i:m.end()]); i = m.end(); continue
+        j, depth = m.end(), 1
+        while j < len(body) and depth:
+            if body[j] in "([{": depth += 1
+            elif body[j] in ")]}": depth -= 1
+            j += 1
+        inner = inlined(callee, max_depth, _stack + (name,))
+        out.append(body[i:m.start()] + "{ /*" + callee + "*/ " + body[m.end():j - 1] + " ; " + inner + " }")
+        i = j
+    return "".join(out)
+
+
+# ---------------------------------------------------------------------------------------------
+# a little structure reader (on comment-stripped text)
+# ---------------------------------------------------------------------------------------------
+
+def match_brace(text, i):
+    """text[i] is an opening bracket; returns the index just after its partner"""
+    pairs = {"{": "}", "(": ")", "[": "]"}
+    depth, j = 0, i
+    while j < len(text):
+        c = text[j]
+        if c in pairs:
+            depth += 1
+        elif c in pairs.values():
+            depth -= 1
+            if depth == 0:
+                return j + 1
+        j += 1
+    die(f"{ME}: unbalanced brackets")
+
+
+def fn_signature(name):
+    m = re.search(r"\bfn\s+" + re.escape(name) + r"\b", src)
+    if not m:
+        die(f"{ME}: fn {name} not found")
+    i = src.index("(", m.end())
+    j = match_brace(src, i)
+    k = src.index("{", j)
+    return src[i + 1:j - 1], src[j:k]   # parameter list, return type + where clause
+
+
+def params_of(name):
+    """[(param name, type text)] of fn `name` (without self)"""
+    plist, _ = fn_signature(name)
+    out, depth, cur = [], 0, ""
+    for c in plist + ",":
+        if c in "(<[{":
+            depth += 1
+        elif c in ")>]}":
+            depth -= 1
+        if c == "," and depth == 0:
+            cur = cur.strip()
+            if cur and not re.fullmatch(r"&?\s*(mut\s+)?self", cur):
+                pm = re.match(r"(?:mut\s+)?([A-Za-z_]\w*)\s*:\s*(.*)", cur, re.S)
+                if not pm:
+                    die(f"{ME}: cannot read parameter `{cur}` of {name}")
+                out.append((pm.group(1), pm.group(2).strip()))
+            cur = ""
+        else:
+            cur += c
+    return out
+
+
+def read_if(text):
+    """text starts with `if`; returns (condition, then-inner, else-text or None, rest after the whole if)"""
+    i = text.index("{")
+    # the condition may itself contain braces only in closures/struct literals: not expected here
+    cond = text[2:i].strip()
+    j = match_brace(text, i)
+    then_inner = text[i + 1:j - 1]
+    rest = text[j:].lstrip()
+    if rest.startswith("else"):
+        r2 = rest[4:].lstrip()
+        if r2.startswith("if") and not r2[2:3].isalnum() and r2[2:3] != "_":
+            c2, t2, e2, after = read_if(r2)
+            consumed = len(r2) - len(after)
+            return cond, then_inner, r2[:consumed], after
+        if r2.startswith("{"):
+            k = match_brace(r2, 0)
+            return cond, then_inner, r2[1:k - 1], r2[k:]
+        die(f"{ME}: cannot read the else branch")
+    return cond, then_inner, None, rest
+
+
+def eval_bool(cond, env):
+    """evaluates a Rust boolean expression over the names in env (&&, ||, !, parentheses, true/false)"""
+    e = cond
+    e = e.replace("&&", " and ").replace("||", " or ")
+    e = re.sub(r"!(?!=)", " not ", e)
+    e = re.sub(r"\btrue\b", "True", e)
+    e = re.sub(r"\bfalse\b", "False", e)
+    names = set(re.findall(r"[A-Za-z_]\w*", e)) - {"and", "or", "not", "True", "False"}
+    if not names <= set(env):
+        die(f"{ME}: condition `{cond.strip()}` uses something else than the expected flags")
+    try:
+        return bool(eval(e, {"__builtins__": {}}, dict(env)))
+    except Exception:
+        die(f"{ME}: cannot evaluate condition `{cond.strip()}`")
+
+
+def pat_matches(pat, val):
+    pat = pat.strip()
+    return pat == "_" or pat == ("true" if val else "false")
+
+
+def decide(text, env, scrutinee_names):
+    """follows if / match decisions over the flags in env down to the leaf expression"""
+    t = text.strip()
+    while t.startswith("{") and match_brace(t, 0) == len(t):
+        t = t[1:-1].strip()
+    if t.startswith("return"):
+        t = t[6:].strip()
+    t = t.rstrip(";").strip()
+    if re.match(r"if\b", t):
+        cond, then_inner, else_text, rest = read_if(t)
+        if rest.strip().strip(";"):
+            # `if c { return x; } <more>`: the rest is the implicit else
+            if else_text is None:
+                else_text = rest
+            else:
+                die(f"{ME}: statements after an if/else in a decision")
+        if eval_bool(cond, env):
+            return decide(then_inner, env, scrutinee_names)
+        if else_text is None:
+            die(f"{ME}: decision without an else branch")
+        return decide(else_text, env, scrutinee_names)
+    m = re.match(r"match\s*", t)
+    if m:
+        i = t.index("{")
+        scrut = squash(t[m.end():i])
+        j = match_brace(t, i)
+        if t[j:].strip():
+            die(f"{ME}: statements after a match in a decision")
+        sm = re.fullmatch(r"\(?([A-Za-z_]\w*)(?:,([A-Za-z_]\w*))?\)?", scrut)
+        if not sm or any(g and g not in env for g in sm.groups()):
+            die(f"{ME}: match scrutinee `{scrut}` is not made of the expected flags")
+        flags = [g for g in sm.groups() if g]
+        body = t[i + 1:j - 1]
+        # arms: pattern => expr, at depth 0
+        k = 0
+        while k < len(body):
+            am = re.compile(r"\s*(\(?\s*(?:true|false|_)\s*(?:,\s*(?:true|false|_)\s*)?\)?)\s*=>\s*").match(body, k)
+            if not am:
+                if body[k:].strip():
+                    die(f"{ME}: cannot read match arm near `{body[k:k+40].strip()}`")
+                break
+            k = am.end()
+            # arm body: up to the next top-level comma (or a block)
+            if body[k] == "{":
+                e = match_brace(body, k)
+                arm, k = body[k:e], e
+                if k < len(body) and body[k:].lstrip().startswith(","):
+                    k = body.index(",", k) + 1
+            else:
+                depth, e = 0, k
+                while e < len(body) and not (body[e] == "," and depth == 0):
+                    if body[e] in "([{":
+                        depth += 1
+                    elif body[e] in ")]}":
+                        depth -= 1
+                    e += 1
+                arm, k = body[k:e], e + 1
+            pats = [p for p in re.sub(r"[()\s]", "", am.group(1)).split(",")]
+            if len(pats) == len(flags) and all(pat_matches(p, env[f]) for p, f in zip(pats, flags)):
+                return decide(arm, env, scrutinee_names)
+        die(f"{ME}: no match arm covers {env}")
+    return squash(t)
 
 
 # ---- constants ------------------------------------------------------------------------------
@@ -36,26 +230,28 @@ max_not = int_const(src, "MAX_NOT_COMPLEMENT_DOCS")
 def milli(text, what):
     t = text.replace("_", "").strip()
     if not re.fullmatch(r"-?\d+(\.\d*)?", t):
-        die(f"c11_bm25_order: {what} = {text!r} is not a decimal literal")
+        die(f"{ME}: {what} = {text!r} is not a decimal literal")
     v = Fraction(t) * 1000
     if v.denominator != 1:
-        die(f"c11_bm25_order: {what} = {text!r} is not a multiple of 0.001")
+        die(f"{ME}: {what} = {text!r} is not a multiple of 0.001")
     return int(v)
 
 
 max_k1 = milli(const_value(src, "MAX_K1"), "MAX_K1")
-m = re.findall(r"BM25Params\s*\{\s*k1\s*:\s*([\d._]+)\s*,\s*b\s*:\s*([\d._]+)\s*\}", src)
-if len(m) != 1:
-    die(f"c11_bm25_order: expected one `BM25Params {{ k1: .., b: .. }}` literal (Default), found {len(m)}")
-def_k1, def_b = milli(m[0][0], "default k1"), milli(m[0][1], "default b")
+dm = re.search(r"impl\s+Default\s+for\s+BM25Params\s*\{", src)
+if not dm:
+    die(f"{ME}: `impl Default for BM25Params` not found")
+dblock = src[dm.end() - 1:match_brace(src, dm.end() - 1)]
+lit = re.findall(r"BM25Params\s*\{([^{}]*)\}", dblock)
+if len(lit) != 1:
+    die(f"{ME}: expected one `BM25Params {{ .. }}` literal in Default, found {len(lit)}")
+mk1 = re.search(r"\bk1\s*:\s*([\d._]+)", lit[0])
+mb0 = re.search(r"\bb\s*:\s*([\d._]+)", lit[0])
+if not mk1 or not mb0:
+    die(f"{ME}: default k1 / b literals not found")
+def_k1, def_b = milli(mk1.group(1), "default k1"), milli(mb0.group(1), "default b")
 
-san = fn_body(src, "sanitized")
-mk = re.search(r"self\s*\.\s*k1\s*\.\s*clamp\(\s*([^,]+),\s*([^)]+)\)", san)
-mb = re.search(r"self\s*\.\s*b\s*\.\s*clamp\(\s*([^,]+),\s*([^)]+)\)", san)
-if not mk or not mb:
-    die("c11_bm25_order: clamp calls not found in BM25Params::sanitized")
-if not (re.search(r"self\s*\.\s*k1\s*\.\s*is_finite\(\)", san) and re.search(r"self\s*\.\s*b\s*\.\s*is_finite\(\)", san)):
-    die("c11_bm25_order: is_finite guards not found in BM25Params::sanitized")
+san = inlined("sanitized")
 
 
 def bound(text, what):
@@ -65,89 +261,205 @@ def bound(text, what):
     return milli(t, what)
 
 
-k1_lo, k1_hi = bound(mk.group(1), "k1 lower clamp"), bound(mk.group(2), "k1 upper clamp")
-b_lo, b_hi = bound(mb.group(1), "b lower clamp"), bound(mb.group(2), "b upper clamp")
-# scoring really uses the sanitized pair
-st = fn_body(src, "score_term")
-uses_sanitized = bool(re.search(r"let\s*\(\s*k1\s*,\s*b\s*\)\s*=\s*params\s*\.\s*sanitized\(\)", st))
+def clamp_of(field):
+    """(lo, hi) of `self.<field>.clamp(lo, hi)`, which must sit in the branch taken for a finite value"""
+    m = re.search(r"self\s*\.\s*" + field + r"\s*\.\s*clamp\(\s*([^,]+),\s*([^)]+)\)", san)
+    if not m:
+        die(f"{ME}: `self.{field}.clamp(..)` not found in BM25Params::sanitized")
+    # the enclosing if: its condition must mention self.<field>.is_finite()
+    ifs = [x for x in re.finditer(r"\bif\b", san) if x.start() < m.start()]
+    ok = False
+    for x in reversed(ifs):
+        cond, then_inner, else_text, _ = read_if(san[x.start():])
+        if not re.search(r"self\s*\.\s*" + field + r"\s*\.\s*is_finite\(\)", cond):
+            continue
+        finite_branch = then_inner if eval_bool(re.sub(r"self\s*\.\s*" + field + r"\s*\.\s*is_finite\(\)", "FIN", cond), {"FIN": True}) else (else_text or "")
+        other = (else_text or "") if finite_branch is then_inner else then_inner
+        if "clamp" in finite_branch and "clamp" not in other:
+            ok = True
+        break
+    if not ok:
+        die(f"{ME}: `self.{field}.clamp(..)` is not what BM25Params::sanitized returns for a finite {field}")
+    return bound(m.group(1), f"{field} lower clamp"), bound(m.group(2), f"{field} upper clamp")
+
+
+k1_lo, k1_hi = clamp_of("k1")
+b_lo, b_hi = clamp_of("b")
+st = inlined("score_term")
+uses_sanitized = bool(re.search(r"let\s*\(\s*(?:mut\s+)?\w+\s*,\s*(?:mut\s+)?\w+\s*\)\s*=\s*\w+\s*\.\s*sanitized\(\)", st))
 avg_floor = re.search(r"avg_doc_tokens\(\)\s*\.\s*max\(\s*([\d._]+)\s*\)", st)
 if not avg_floor:
-    die("c11_bm25_order: `avg_doc_tokens().max(..)` not found in score_term")
+    die(f"{ME}: `avg_doc_tokens().max(..)` not found in score_term")
 avg_floor_milli = milli(avg_floor.group(1), "avg floor")
 
 # ---- compare_scored_docs ----------------------------------------------------------------------
-cmp = fn_body(src, "compare_scored_docs")
-if not re.search(r"match\s*\(\s*a\s*\.\s*1\s*\.\s*is_nan\(\)\s*,\s*b\s*\.\s*1\s*\.\s*is_nan\(\)\s*\)", cmp):
-    die("c11_bm25_order: `match (a.1.is_nan(), b.1.is_nan())` not found in compare_scored_docs")
-arms = {}
-for m in re.finditer(r"\(\s*(true|false)\s*,\s*(true|false)\s*\)\s*=>\s*([^\n]+(?:\n(?!\s*\()[^\n]*)*)", cmp):
-    key = (m.group(1), m.group(2))
-    rhs = squash(m.group(3)).rstrip(",").rstrip("}").rstrip(",")
-    if key in arms:
-        die(f"c11_bm25_order: arm {key} appears twice in compare_scored_docs")
-    arms[key] = rhs
+cps = params_of("compare_scored_docs")
+if len(cps) != 2:
+    die(f"{ME}: compare_scored_docs does not take two parameters")
+pa, pb = cps[0][0], cps[1][0]
+cmp_body = inlined("compare_scored_docs")
+# canonical names for what the parameters hold
+alias = {}   # local name -> canonical expression
+for name, canon in ((pa, "A"), (pb, "B")):
+    for dm_ in re.finditer(r"let\s*\(\s*(\w+)\s*,\s*(\w+)\s*\)\s*=\s*\*?\s*" + re.escape(name) + r"\s*;", cmp_body):
+        alias[dm_.group(1)] = f"ID_{canon}"
+        alias[dm_.group(2)] = f"SC_{canon}"
+    for dm_ in re.finditer(r"let\s*&?\s*\(\s*(\w+)\s*,\s*(\w+)\s*\)\s*=\s*" + re.escape(name) + r"\s*;", cmp_body):
+        alias[dm_.group(1)] = f"ID_{canon}"
+        alias[dm_.group(2)] = f"SC_{canon}"
+
+
+def canon_expr(t):
+    t = re.sub(r"\b" + re.escape(pa) + r"\s*\.\s*0\b", "ID_A", t)
+    t = re.sub(r"\b" + re.escape(pa) + r"\s*\.\s*1\b", "SC_A", t)
+    t = re.sub(r"\b" + re.escape(pb) + r"\s*\.\s*0\b", "ID_B", t)
+    t = re.sub(r"\b" + re.escape(pb) + r"\s*\.\s*1\b", "SC_B", t)
+    for k, v in alias.items():
+        t = re.sub(r"(?<![\w.])" + re.escape(k) + r"\b", v, t)
+    t = re.sub(r"\(?\*?SC_A\)?\s*\.\s*is_nan\(\)", "NAN_A", t)
+    t = re.sub(r"\(?\*?SC_B\)?\s*\.\s*is_nan\(\)", "NAN_B", t)
+    return t
+
+
+body_c = canon_expr(cmp_body)
+# boolean aliases: `let x = NAN_A;`
+for dm_ in re.finditer(r"let\s+(\w+)\s*(?::\s*bool\s*)?=\s*(NAN_A|NAN_B)\s*;", body_c):
+    alias[dm_.group(1)] = dm_.group(2)
+body_c = canon_expr(cmp_body)
+# drop the let statements that only introduce aliases
+body_c = re.sub(r"let\s*&?\s*\(\s*\w+\s*,\s*\w+\s*\)\s*=\s*\*?\s*\w+\s*;", "", body_c)
+body_c = re.sub(r"let\s+\w+\s*(?::\s*bool\s*)?=\s*(NAN_A|NAN_B)\s*;", "", body_c)
+if "NAN_A" not in body_c or "NAN_B" not in body_c:
+    die(f"{ME}: compare_scored_docs does not test both scores with is_nan()")
 CLASS = {
-    "a.0.cmp(&b.0)": "ids",
+    "ID_A.cmp(&ID_B)": "ids",
+    "ID_B.cmp(&ID_A)": "idsDesc",
     "std::cmp::Ordering::Greater": "greater",
     "Ordering::Greater": "greater",
     "std::cmp::Ordering::Less": "less",
     "Ordering::Less": "less",
-    "b.1.total_cmp(&a.1).then_with(||a.0.cmp(&b.0))": "scoreDescThenIds",
-    "b.1.total_cmp(&a.1).then(a.0.cmp(&b.0))": "scoreDescThenIds",
-    "a.1.total_cmp(&b.1).then_with(||a.0.cmp(&b.0))": "scoreAscThenIds",
-    "a.1.total_cmp(&b.1).then(a.0.cmp(&b.0))": "scoreAscThenIds",
-    "b.0.cmp(&a.0)": "idsDesc",
+    "SC_B.total_cmp(&SC_A).then_with(||ID_A.cmp(&ID_B))": "scoreDescThenIds",
+    "SC_B.total_cmp(&SC_A).then(ID_A.cmp(&ID_B))": "scoreDescThenIds",
+    "SC_A.total_cmp(&SC_B).then_with(||ID_A.cmp(&ID_B))": "scoreAscThenIds",
+    "SC_A.total_cmp(&SC_B).then(ID_A.cmp(&ID_B))": "scoreAscThenIds",
 }
 arm_list = []
-for key in [("true", "true"), ("true", "false"), ("false", "true"), ("false", "false")]:
-    if key not in arms:
-        die(f"c11_bm25_order: arm {key} missing in compare_scored_docs")
-    if arms[key] not in CLASS:
-        die(f"c11_bm25_order: arm {key} of compare_scored_docs not recognised: {arms[key]}")
-    arm_list.append((key, CLASS[arms[key]]))
+for na, nb in [(True, True), (True, False), (False, True), (False, False)]:
+    leaf = decide(body_c, {"NAN_A": na, "NAN_B": nb}, ("NAN_A", "NAN_B"))
+    if leaf not in CLASS:
+        die(f"{ME}: result of compare_scored_docs for (nan={na}, nan={nb}) not recognised: {leaf}")
+    arm_list.append(((str(na).lower(), str(nb).lower()), CLASS[leaf]))
 
 # ---- top_k_results ------------------------------------------------------------------------------
-tk = squash(fn_body(src, "top_k_results"))
+tps = params_of("top_k_results")
+if len(tps) != 2:
+    die(f"{ME}: top_k_results does not take two parameters")
+kname = re.escape(tps[1][0])
+tk = squash(inlined("top_k_results"))
 steps = []
+CMPF = r"(?:Self::)?compare_scored_docs"
 for name, pat in [
-    ("selectNth", r"select_nth_unstable_by\(top_k-1,Self::compare_scored_docs\)"),
-    ("truncate", r"truncate\(top_k\)"),
-    ("sort", r"sort_unstable_by\(Self::compare_scored_docs\)|sort_by\(Self::compare_scored_docs\)"),
+    ("selectNth", r"select_nth_unstable_by\(" + kname + r"-1," + CMPF + r"\)"),
+    ("truncate", r"truncate\(" + kname + r"\)"),
+    ("sort", r"sort(?:_unstable)?_by\(" + CMPF + r"\)"),
 ]:
     ms = list(re.finditer(pat, tk))
     if len(ms) != 1:
-        die(f"c11_bm25_order: expected exactly one `{name}` step in top_k_results, found {len(ms)}")
+        die(f"{ME}: expected exactly one `{name}` step in top_k_results, found {len(ms)}")
     steps.append((ms[0].start(), name))
 topk_shape = [n for _, n in sorted(steps)]
 
 # ---- flush_with -----------------------------------------------------------------------------------
-fl = fn_body(src, "flush_with")
-flq = squash(fl)
-markers = [
-    ("bucketWrites", r"\bf\(BucketObject\{"),
-    ("metaCommit", r"metadata_f\(meta_buf\)"),
-    ("publishSavedVersion", r"last_saved_version\.fetch_max\("),
-    ("publishManifest", r"m\.buckets=manifest"),
-    ("markSaved", r"mark_bucket_saved\("),
-]
-pos = []
-for name, pat in markers:
+fps = params_of("flush_with")
+_, where = fn_signature("flush_with")
+bucket_ty = re.search(r"\b(\w+)\s*:\s*FnMut\(\s*BucketObject\s*,\s*Vec<u8>\s*\)", where)
+meta_ty = re.search(r"\b(\w+)\s*:\s*FnOnce\(\s*Vec<u8>\s*\)", where)
+if not bucket_ty or not meta_ty:
+    die(f"{ME}: callback bounds `FnMut(BucketObject, Vec<u8>)` / `FnOnce(Vec<u8>)` not found on flush_with")
+bucket_cb = [n for n, t in fps if squash(t) == bucket_ty.group(1)]
+meta_cb = [n for n, t in fps if squash(t) == meta_ty.group(1)]
+if len(bucket_cb) != 1 or len(meta_cb) != 1:
+    die(f"{ME}: cannot tell the bucket writer from the metadata writer among flush_with's parameters")
+bucket_cb, meta_cb = bucket_cb[0], meta_cb[0]
+flq = squash(inlined("flush_with"))
+
+
+def one(pat, what):
     ms = list(re.finditer(pat, flq))
     if len(ms) != 1:
-        die(f"c11_bm25_order: expected exactly one `{name}` marker in flush_with, found {len(ms)}")
-    pos.append((ms[0].start(), name))
+        die(f"{ME}: expected exactly one `{what}` marker in flush_with, found {len(ms)}")
+    return ms[0]
+
+
+m_write = one(r"(?<![\w.])" + re.escape(bucket_cb) + r"\(", "bucket writer call")
+m_meta = one(r"(?<![\w.])" + re.escape(meta_cb) + r"\(", "metadata writer call")
+m_saved = one(r"last_saved_version\.fetch_max\(", "last_saved_version.fetch_max")
+m_mark = one(r"mark_bucket_saved\(", "mark_bucket_saved")
+# the update_metadata closure that assigns the manifest
+pub = [x for x in re.finditer(r"update_metadata\(\|(\w+)\|", flq)
+       if re.search(r"(?<![\w.])" + re.escape(x.group(1)) + r"\.buckets=", flq[x.end():match_brace(flq, x.end() - len(x.group(1)) - 3)])]
+if len(pub) != 1:
+    die(f"{ME}: expected exactly one `update_metadata(|m| … m.buckets = …)` in flush_with, found {len(pub)}")
+pos = [(m_write.start(), "bucketWrites"), (m_meta.start(), "metaCommit"), (m_saved.start(), "publishSavedVersion"),
+       (pub[0].start(), "publishManifest"), (m_mark.start(), "markSaved")]
 flush_order = [n for _, n in sorted(pos)]
-gen_is_version = bool(re.search(r"letgeneration=meta\.stats\.version;", flq))
-writes_use_generation = bool(re.search(r"\bf\(BucketObject\{bucket_id:snapshot\.bucket_id,generation,?\}", flq))
-dirty_sorted = bool(re.search(r"dirty\.sort_unstable_by_key\(\|snapshot\|snapshot\.bucket_id\)|dirty\.sort_by_key\(\|snapshot\|snapshot\.bucket_id\)", flq))
-# every await of a callback propagates its error with `?` (no in-memory publication after a failed write)
-awaits = re.findall(r"\.await\.map_err\([^;]*?\)\?;", flq)
-errors_propagate = len(awaits) >= 2
+
+# generation: the written objects carry G where `let G = M.stats.version;` and M is what gets serialised
+gen_ok = False
+ser = re.search(r"BM25IndexRef\{metadata:&(\w+)\}", flq)
+if ser:
+    for g in re.finditer(r"let(\w+)=" + re.escape(ser.group(1)) + r"\.stats\.version;", flq):
+        G = g.group(1)
+        cons = r"BucketObject\{[^{}]*\bgeneration" + (r"(?::" + re.escape(G) + r")?" if G == "generation" else r":" + re.escape(G)) + r"\s*,?\s*[^{}]*\}"
+        c = re.search(cons, flq[g.end():m_meta.start()])
+        if c:
+            gen_ok = True
+dirty_sorted = bool(re.search(r"\w+\.sort(?:_unstable)?_by_key\(\|(\w+)\|\1\.bucket_id\)", flq[:m_write.start()]))
+
+
+def propagates(m):
+    """the callback call's statement awaits and ends in `?;`"""
+    end = match_brace(flq, m.end() - 1)
+    depth, stmt_end = 0, end
+    while stmt_end < len(flq) and not (flq[stmt_end] == ";" and depth == 0):
+        if flq[stmt_end] in "([{":
+            depth += 1
+        elif flq[stmt_end] in ")]}":
+            depth -= 1
+        stmt_end += 1
+    tail = flq[end:stmt_end + 1]
+    return tail.startswith(".await") and tail.endswith("?;")
+
+
+errors_propagate = propagates(m_write) and propagates(m_meta)
 
 # ---- load_buckets -----------------------------------------------------------------------------------
-lb = squash(fn_body(src, "load_buckets"))
-legacy_switch = bool(re.search(r"letlegacy=manifest\.is_empty\(\);", lb))
-legacy_probe = bool(re.search(r"\(0\.\.=self\.max_bucket_id\.load\(Ordering::Relaxed\)\)\.map\(\|bucket_id\|BucketObject\{bucket_id,generation:0,?\}\)", lb))
+lb = inlined("load_buckets")
+if not re.search(r"metadata\s*\.\s*read\(\)\s*\.\s*buckets|\.buckets\s*\.\s*clone\(\)", lb):
+    die(f"{ME}: load_buckets does not read the manifest (`metadata.read().buckets`)")
+legacy_alias = {}
+for dm_ in re.finditer(r"let\s+(\w+)\s*(?::\s*bool\s*)?=\s*(!?)\s*(\w+)\s*\.\s*is_empty\(\)\s*;", lb):
+    legacy_alias[dm_.group(1)] = "(not EMPTY)" if dm_.group(2) else "EMPTY"
+probe = re.search(r"\(\s*0\s*\.\.=\s*self\s*\.\s*max_bucket_id\s*\.\s*load\(", lb)
+legacy_flag = False
+if probe and re.search(r"generation\s*:\s*0\b", lb[probe.start():probe.start() + 400]):
+    for x in reversed([x for x in re.finditer(r"\bif\b", lb) if x.start() < probe.start()]):
+        cond, then_inner, else_text, _ = read_if(lb[x.start():])
+        span_then = (lb.index(then_inner, x.start()), lb.index(then_inner, x.start()) + len(then_inner))
+        in_then = span_then[0] <= probe.start() < span_then[1]
+        in_else = else_text is not None and (else_text in lb[span_then[1]:]) and not in_then and \
+            lb.index(else_text, span_then[1]) <= probe.start() < lb.index(else_text, span_then[1]) + len(else_text)
+        if not (in_then or in_else):
+            continue
+        c = re.sub(r"\b\w+\s*\.\s*is_empty\(\)", "EMPTY", cond)
+        for k, v in legacy_alias.items():
+            c = re.sub(r"(?<![\w.])" + re.escape(k) + r"\b", v, c)
+        c = c.replace("(not EMPTY)", "!EMPTY")
+        if set(re.findall(r"[A-Za-z_]\w*", c)) - {"EMPTY"}:
+            die(f"{ME}: the legacy switch of load_buckets depends on something else than the manifest being empty: `{cond.strip()}`")
+        taken_when_empty = eval_bool(c, {"EMPTY": True})
+        legacy_flag = (taken_when_empty and in_then) or ((not taken_when_empty) and in_else)
+        break
 
 
 def lean_bool(b):
@@ -191,13 +503,13 @@ inductive FlushStep where
   deriving DecidableEq, Repr
 def flushOrder : List FlushStep := [{", ".join("." + s for s in flush_order)}]
 /-- `let generation = meta.stats.version;` and every bucket write addresses `(bucket_id, generation)` -/
-def generationIsStatsVersion : Bool := {lean_bool(gen_is_version and writes_use_generation)}
+def generationIsStatsVersion : Bool := {lean_bool(gen_ok)}
 /-- `dirty.sort_unstable_by_key(|snapshot| snapshot.bucket_id)` -/
 def dirtySortedByBucketId : Bool := {lean_bool(dirty_sorted)}
 /-- both callback awaits propagate their error with `?` before anything is published in memory -/
 def callbackErrorsPropagate : Bool := {lean_bool(errors_propagate)}
 /-- `load_buckets`: `legacy = manifest.is_empty()` selects the probe `(0..=max_bucket_id, generation 0)` -/
-def legacyWhenManifestEmpty : Bool := {lean_bool(legacy_switch and legacy_probe)}
+def legacyWhenManifestEmpty : Bool := {lean_bool(legacy_flag)}
 
 theorem gen_cmpArms : cmpArms =
     [((true, true), .ids), ((true, false), .greater), ((false, true), .less), ((false, false), .scoreDescThenIds)] := by decide
